@@ -39,6 +39,8 @@ CONSTANTS Requests,      \* sequence of connection requests [seat, team, version
           Interrupts     \* TRUE: an operator interrupt may hit main inside a board
 
 NoFault == [board |-> 0, phase |-> "none", index |-> 0]
+\* a free seat of the table (the code's None); "" is a team name like any other
+Free == "<<free seat>>"
 
 OfferBids == {}
 Dealers == {}
@@ -119,18 +121,18 @@ BoardsStream(s, b) == IF b > NB THEN <<>> ELSE BoardStream(s, b) \o BoardsStream
 \* admission, sequentially (requests are processed one at a time)
 VerdictKind(table, rq) ==
   IF rq.version # 18 THEN "version"
-  ELSE IF table[rq.seat] # "" THEN "seated"
-  ELSE IF table[Partner(rq.seat)] # "" /\ table[Partner(rq.seat)] # rq.team THEN "team"
+  ELSE IF table[rq.seat] # Free THEN "seated"
+  ELSE IF table[Partner(rq.seat)] # Free /\ table[Partner(rq.seat)] # rq.team THEN "team"
   ELSE "ok"
 RECURSIVE TableAfterK(_)
 TableAfterK(k) ==
-  IF k = 0 THEN [s \in Seats |-> ""]
+  IF k = 0 THEN [s \in Seats |-> Free]
   ELSE LET t == TableAfterK(k - 1)
        IN IF VerdictKind(t, Requests[k]) = "ok"
           THEN [t EXCEPT ![Requests[k].seat] = Requests[k].team] ELSE t
 VerdictK(k) == VerdictKind(TableAfterK(k - 1), Requests[k])
 \* requests processed by the accept loop: up to the one that fills the table
-FullAt(k) == \A s \in Seats : TableAfterK(k)[s] # ""
+FullAt(k) == \A s \in Seats : TableAfterK(k)[s] # Free
 Processed(k) == \A j \in 1..(k - 1) : ~FullAt(j)
 ExpectedStream(k) ==
   IF ~Processed(k) THEN <<>>
@@ -148,7 +150,7 @@ IsFault(b, phase, idx) == Fault.board = b /\ Fault.phase = phase /\ Fault.index 
 (***************************************************************************
 --algorithm Table {
   variables
-    table = [s \in Seats |-> ""],
+    table = [s \in Seats |-> Free],
     backlog = 1,                          \* next request to accept
     ev = [flag |-> FALSE, waiters |-> {}, notified |-> {}],       \* event_thread
     bar = [count |-> 0, state |-> 0],     \* threading.Barrier(5)
@@ -165,7 +167,7 @@ IsFault(b, phase, idx) == Fault.board = b /\ Fault.phase = phase /\ Fault.index 
     aborted = FALSE, interrupted = FALSE;
 
   define {
-    AllSeated == \A s \in Seats : table[s] # ""
+    AllSeated == \A s \in Seats : table[s] # Free
     Others(s) == Seats \ {s}
     PutAll(q, msg) == [s \in Seats |-> Append(q[s], msg)]
     PutTo(q, S, msg) == [s \in Seats |-> IF s \in S THEN Append(q[s], msg) ELSE q[s]]
@@ -368,9 +370,9 @@ IsFault(b, phase, idx) == Fault.board = b /\ Fault.phase = phase /\ Fault.index 
    p_conn:                                       \* recv connection line; checks; answer
     if (rq.version # 18) {
       sent[self] := Append(sent[self], MErr("version")); closed[self] := TRUE; goto p_ev_set_rej;
-    } else if (table[seat] # "") {
+    } else if (table[seat] # Free) {
       sent[self] := Append(sent[self], MErr("seated")); closed[self] := TRUE; goto p_ev_set_rej;
-    } else if (table[Partner(seat)] # "" /\ table[Partner(seat)] # rq.team) {
+    } else if (table[Partner(seat)] # Free /\ table[Partner(seat)] # rq.team) {
       sent[self] := Append(sent[self], MErr("team")); closed[self] := TRUE; goto p_ev_set_rej;
     } else {
       table[seat] := rq.team;
@@ -477,14 +479,14 @@ IsFault(b, phase, idx) == Fault.board = b /\ Fault.phase = phase /\ Fault.index 
 }
 ***************************************************************************)
 \* BEGIN TRANSLATION
-\* Process variable msg of process Main at line 229 col 78 changed to msg_
+\* Process variable msg of process Main at line 231 col 78 changed to msg_
 CONSTANT defaultInitValue
 VARIABLES pc, table, backlog, ev, bar, evSync, evSeat, toSeat, fromSeat, sent, 
           closed, started, finished, threads, log, logState, aborted, 
           interrupted, stack
 
 (* define statement *)
-AllSeated == \A s \in Seats : table[s] # ""
+AllSeated == \A s \in Seats : table[s] # Free
 Others(s) == Seats \ {s}
 PutAll(q, msg) == [s \in Seats |-> Append(q[s], msg)]
 PutTo(q, S, msg) == [s \in Seats |-> IF s \in S THEN Append(q[s], msg) ELSE q[s]]
@@ -502,7 +504,7 @@ vars == << pc, table, backlog, ev, bar, evSync, evSeat, toSeat, fromSeat,
 ProcSet == {0} \cup {-1} \cup (Reqs)
 
 Init == (* Global variables *)
-        /\ table = [s \in Seats |-> ""]
+        /\ table = [s \in Seats |-> Free]
         /\ backlog = 1
         /\ ev = [flag |-> FALSE, waiters |-> {}, notified |-> {}]
         /\ bar = [count |-> 0, state |-> 0]
@@ -1108,12 +1110,12 @@ p_conn(self) == /\ pc[self] = "p_conn"
                            /\ closed' = [closed EXCEPT ![self] = TRUE]
                            /\ pc' = [pc EXCEPT ![self] = "p_ev_set_rej"]
                            /\ table' = table
-                      ELSE /\ IF table[seat[self]] # ""
+                      ELSE /\ IF table[seat[self]] # Free
                                  THEN /\ sent' = [sent EXCEPT ![self] = Append(sent[self], MErr("seated"))]
                                       /\ closed' = [closed EXCEPT ![self] = TRUE]
                                       /\ pc' = [pc EXCEPT ![self] = "p_ev_set_rej"]
                                       /\ table' = table
-                                 ELSE /\ IF table[Partner(seat[self])] # "" /\ table[Partner(seat[self])] # rq[self].team
+                                 ELSE /\ IF table[Partner(seat[self])] # Free /\ table[Partner(seat[self])] # rq[self].team
                                             THEN /\ sent' = [sent EXCEPT ![self] = Append(sent[self], MErr("team"))]
                                                  /\ closed' = [closed EXCEPT ![self] = TRUE]
                                                  /\ pc' = [pc EXCEPT ![self] = "p_ev_set_rej"]
@@ -1463,12 +1465,12 @@ SentComplete == (AllDone /\ ~aborted) => \A k \in Reqs : sent[k] = ExpectedStrea
 AbortLog == aborted => (logState = "closed" /\ LogPrefix /\ Len(log) = b - 1)
 
 \* C20: admission
-TableOnlyGrows == [][\A s \in Seats : table[s] # "" => table'[s] = table[s]]_vars
+TableOnlyGrows == [][\A s \in Seats : table[s] # Free => table'[s] = table[s]]_vars
 RejectedGetOneError ==
   \A k \in Reqs : (pc[k] = "Done" /\ Processed(k) /\ VerdictK(k) # "ok")
                     => (sent[k] = <<MErr(VerdictK(k))>> /\ closed[k])
 SeatedAsSpecified ==
   AllDone => \A s \in Seats : table[s] = TableAfterK(NReq)[s]
-PartnersShareTeam == (\A s \in Seats : table[s] # "") => table[0] = table[2] /\ table[1] = table[3]
+PartnersShareTeam == (\A s \in Seats : table[s] # Free) => table[0] = table[2] /\ table[1] = table[3]
 BarrierShape == bar.count \in 0..Parties /\ bar.state \in {0, 1}
 =============================================================================
